@@ -459,7 +459,10 @@ fn run_write_case(c: &WriteCase, rep: &mut Report) {
     rep.case(Some(fnv(sig.as_bytes())));
     rep.count(&format!("write_cases/{}", c.label));
     let want = refs::enc_crlf(c.frame.0, c.frame.1, &c.frame.2);
-    let mut w = FragWriter::new(c.script.clone(), c.default);
+    // every second sink gathers: offered several slices at once it takes them as one run of bytes (and may stop anywhere)
+    let gather = fnv(sig.as_bytes()) % 2 == 1;
+    let mut w = FragWriter::new(c.script.clone(), c.default).gathering(gather);
+    rep.count(if gather { "sinks/gathering" } else { "sinks/first_slice_only" });
     let r = catch(|| {
         let f = Frame::new(Address(c.frame.0), MsgType(c.frame.1), Data::try_new(c.frame.2.clone()).expect("<=255"));
         f.write(&mut w).map_err(|e| match e {
@@ -528,6 +531,107 @@ fn run_write_case(c: &WriteCase, rep: &mut Report) {
     }
     if rep.wants_sample() {
         rep.sample(|| J::obj(vec![("workload", J::s("write")), ("label", J::s(c.label)), ("frame_len", J::us(c.frame.2.len())), ("calls", J::us(w.calls)), ("accepted_bytes", J::us(w.accepted.len()))]));
+    }
+}
+
+/// The standard library's own sinks, each with room for 0 .. (line length + 2) bytes: a byte slice, a cursor over a byte
+/// slice, a cursor over a vector, a vector, a buffered writer with a tiny buffer over a slice. A sink with room for the
+/// whole line ends up holding exactly the line and the write succeeds; a smaller one is filled with a prefix of the line
+/// and the write fails with an I/O error (the library's `WriteZero`).
+fn std_sinks(rep: &mut Report) {
+    use std::io::{Cursor, Write as _};
+    let frames = [(0x0003u16, 0x02u8, vec![0xFFu8]), (0, 1, vec![]), (0xABCD, 0x00, (0..16).collect::<Vec<u8>>()), (0xFFFF, 0xFF, vec![0xA5; 255])];
+    for f in frames {
+        let want = refs::enc_crlf(f.0, f.1, &f.2);
+        let n = want.len();
+        let rooms: Vec<usize> = if n > 100 { vec![0, 1, n / 2, n - 3, n - 2, n - 1, n, n + 1, n + 2] } else { (0..=n + 2).collect() };
+        for room in rooms {
+            for sink in 0..5usize {
+                let sig = format!("std-sink{}|{:04X}:{:02X}:{}|room{}", sink, f.0, f.1, hex(&f.2), room);
+                rep.case(Some(fnv(sig.as_bytes())));
+                let r = catch(|| {
+                    let fr = Frame::new(Address(f.0), MsgType(f.1), Data::try_new(f.2.clone()).expect("<=255"));
+                    let mut store = vec![0xEEu8; room];
+                    let (res, held): (Result<(), FrameError>, Vec<u8>) = match sink {
+                        0 => {
+                            let mut slice: &mut [u8] = &mut store[..];
+                            let res = fr.write(&mut slice);
+                            let left = slice.len();
+                            (res, store[..room - left].to_vec())
+                        }
+                        1 => {
+                            let mut c = Cursor::new(&mut store[..]);
+                            let res = fr.write(&mut c);
+                            let at = c.position() as usize;
+                            (res, store[..at].to_vec())
+                        }
+                        2 => {
+                            // a growable sink never runs out of room: `room` bytes are already in it
+                            let mut c = Cursor::new(store.clone());
+                            c.set_position(room as u64);
+                            let res = fr.write(&mut c);
+                            let v = c.into_inner();
+                            (res, if v.len() >= room { v[room..].to_vec() } else { vec![] })
+                        }
+                        3 => {
+                            let mut v = store.clone();
+                            let res = fr.write(&mut v);
+                            (res, if v.len() >= room { v[room..].to_vec() } else { vec![] })
+                        }
+                        _ => {
+                            let mut slice: &mut [u8] = &mut store[..];
+                            let res = {
+                                let mut b = std::io::BufWriter::with_capacity(3, &mut slice);
+                                let res = fr.write(&mut b);
+                                match res {
+                                    Ok(()) => b.flush().map_err(FrameError::from),
+                                    e => {
+                                        let _ = b.flush();
+                                        e
+                                    }
+                                }
+                            };
+                            let left = slice.len();
+                            (res, store[..room - left].to_vec())
+                        }
+                    };
+                    (res.map_err(|e| match e {
+                        FrameError::Io { source } => format!("Io({:?})", source.kind()),
+                        other => format!("Other({:?})", other),
+                    }), held)
+                });
+                let fail = |rep: &mut Report, class: &str, what: String| {
+                    rep.violation(MON_W, class, &sig, format!("{}: {}", sig, what), J::obj(vec![("workload", J::s("std sinks")), ("sink", J::us(sink)), ("room", J::us(room)), ("frame", J::s(format!("{:04X}:{:02X}:{}", f.0, f.1, hex(&f.2)))), ("observed", J::s(what.clone()))]));
+                };
+                let bounded = matches!(sink, 0 | 1 | 4);
+                match r {
+                    Err(p) => fail(rep, "panic", format!("panic {} at {}", p.msg, short_loc(&p.loc))),
+                    Ok((res, held)) => {
+                        let fits = !bounded || room >= n;
+                        match (res, fits) {
+                            (Ok(()), true) => {
+                                if held != want {
+                                    fail(rep, "incomplete_or_wrong_bytes", format!("Ok but the sink holds [{}], the line is [{}]", show_bytes(&held), show_bytes(&want)));
+                                } else {
+                                    rep.count("std_sink_writes_ok");
+                                }
+                            }
+                            (Ok(()), false) => fail(rep, "sink_failure_not_surfaced", format!("a sink with room for {} of the line's {} bytes, yet write returned Ok (it holds [{}])", room, n, show_bytes(&held))),
+                            (Err(e), true) => fail(rep, "error_without_sink_failure", format!("the sink has room for the whole line, yet write returned {}", e)),
+                            (Err(e), false) => {
+                                if !e.starts_with("Io(") {
+                                    fail(rep, "failure_not_io_error", format!("a full sink surfaced as {}", e));
+                                } else if !want.starts_with(&held) {
+                                    fail(rep, "garbage_before_failure", format!("sink holds [{}], not a prefix of the line", show_bytes(&held)));
+                                } else {
+                                    rep.count("std_sink_writes_failed");
+                                }
+                            }
+                        }
+                    }
+                }
+            }
+        }
     }
 }
 
@@ -644,7 +748,8 @@ fn write_session(frames: Vec<(u16, u8, Vec<u8>)>, script: Vec<WriteAct>, default
     let sig = format!("session|{}|{:?}|{:?}", frames.iter().map(|f| format!("{:04X}:{:02X}:{}", f.0, f.1, hex(&f.2))).collect::<Vec<_>>().join(","), script, default);
     rep.case(Some(fnv(sig.as_bytes())));
     rep.count("write_sessions");
-    let mut w = FragWriter::new(script.clone(), default);
+    let gather = fnv(sig.as_bytes()) % 2 == 1;
+    let mut w = FragWriter::new(script.clone(), default).gathering(gather);
     let r = catch(|| {
         let mut marks = vec![];
         for f in &frames {
@@ -754,6 +859,7 @@ pub fn run(ctx: &Ctx) -> Outcome {
             exhaustive_read(shard, rep);
         } else if shard == 3 {
             exhaustive_write(rep);
+            std_sinks(rep);
             twin_write_sessions(&mut ctx.rng("twins", 0), rep);
             marathon(rep);
         } else {
@@ -786,6 +892,8 @@ pub fn run(ctx: &Ctx) -> Outcome {
         floor("short writes and write interrupts observed", report.get("short_writes_observed") > 0 && report.get("write_interrupts_fired") > 0, report.get("short_writes_observed")),
         floor("several frames to one sink: complete writes, failed writes, and writes after a failed one", report.get("session_writes_ok") > 1000 && report.get("session_writes_failed") > 100 && report.get("session_writes_after_a_failed_one") > 100, format!("{} ok, {} failed, {} after a failed one", report.get("session_writes_ok"), report.get("session_writes_failed"), report.get("session_writes_after_a_failed_one"))),
         floor("near-twin frames written back to back to one sink (no data / 00 / one byte / longer, neighbouring address or type), every ordered pair", report.get("twin_write_sessions") == 6 * 15 * 14, report.get("twin_write_sessions")),
+        floor("the standard library's sinks (slice, cursors, vector, buffered writer) with room for every number of bytes up to the line and two more", report.get("std_sink_writes_ok") > 100 && report.get("std_sink_writes_failed") > 100, format!("{} ok, {} failed", report.get("std_sink_writes_ok"), report.get("std_sink_writes_failed"))),
+        floor("gathering sinks and first-slice-only sinks", report.get("sinks/gathering") > 1000 && report.get("sinks/first_slice_only") > 1000, report.get("sinks/gathering")),
         floor("write failures surfaced and complete writes both observed", report.get("write_failures_surfaced") > 0 && report.get("writes_ok_complete") > 0, report.get("write_failures_surfaced")),
     ];
     let sizes: Vec<J> = {
